@@ -385,7 +385,7 @@ class Budget(Exception):
     pass
 
 
-def synthesize(S, bound, max_height=None, node_budget=300000, all_min=False):
+def synthesize(S, bound, max_height=None, node_budget=300000, all_min=False, on_solution=None):
     """Iterative-deepening search for a realizing id sequence of length <= bound (peak height <=
     max_height).  Complete up to the bound unless the node budget is exhausted (raises Budget).
     Returns the shortest realizing sequence found, or None if none exists within the bound."""
@@ -472,6 +472,9 @@ def synthesize(S, bound, max_height=None, node_budget=300000, all_min=False):
             raise Budget()
         if len(st) == len(tgt) and all(same(a, b) for a, b in zip(st, tgt)) and len(done_stores) == len(stores):
             best[0] = list(seq)
+            if on_solution is not None:
+                on_solution(list(seq))
+                return False        # keep enumerating; extending a finished program never makes it cheaper
             return True
         if len(seq) >= limit:
             return False
@@ -533,7 +536,40 @@ def synthesize(S, bound, max_height=None, node_budget=300000, all_min=False):
             seq.pop()
         return False
 
+    if on_solution is not None:
+        # complete enumeration of the realizing sequences of length <= bound (modulo never-useful moves)
+        dfs(list(src), frozenset(), frozenset(), [], bound, None)
+        return best[0]
     for limit in range(0, bound + 1):
         if dfs(list(src), frozenset(), frozenset(), [], limit, None):
             return best[0]
     return None
+
+
+def sequence_cost(S, ids, criterion, avals=None):
+    """true cost of an id sequence: the specification's own per-instruction gas/size fields for the
+    instructions it defines, the EVM constants for DUP/SWAP/POP, nothing for NOP"""
+    byid = by_id(S)
+    c = 0
+    for j, iid in enumerate(ids):
+        if iid == "NOP":
+            continue
+        ins = byid.get(iid)
+        if criterion == "length":
+            c += 1
+        elif criterion == "gas":
+            if ins is not None:
+                c += ins["gas"]
+            elif iid == "POP":
+                c += 2
+            else:
+                c += 3
+        else:
+            if ins is not None:
+                c += ins["size"]
+            elif iid.startswith("PUSH"):
+                v = int(iid.split(" ")[1], 16) if " " in iid else 0
+                c += 1 + max(1, (v.bit_length() + 7) // 8)
+            else:
+                c += 1
+    return c
